@@ -20,6 +20,7 @@ import os
 import shutil
 import subprocess
 import sys
+import tempfile
 import time
 from pathlib import Path
 
@@ -87,7 +88,8 @@ def main() -> int:
         # which checks catch it?
         checks = args.checks.split(",") if args.checks else [f"C{i:02d}" for i in range(1, 21)]
         caught, missed, other = {}, [], {}
-        env = dict(os.environ, VERIF_REPO=wt, PYTHONHASHSEED="0", PYTHONDONTWRITEBYTECODE="1", PYTHONPATH=f"{wt}:/verif")
+        out_dir = tempfile.mkdtemp(prefix="seed_eval_out_")
+        env = dict(os.environ, VERIF_REPO=wt, VERIF_OUT=out_dir, PYTHONHASHSEED="0", PYTHONDONTWRITEBYTECODE="1", PYTHONPATH=f"{wt}:/verif")
         for c in checks:
             t0 = time.time()
             r = sh(f"/venv/bin/python check.py {c} --tier quick", cwd=str(VERIF), env=env, timeout=3600)
@@ -104,9 +106,9 @@ def main() -> int:
         meta["not_caught_by"] = missed
     finally:
         sh("git checkout -- aiohomekit", cwd=wt)
-        # evidence written against a patched tree is not evidence
-        sh("git checkout -- evidence", cwd=str(VERIF))
-        shutil.rmtree(VERIF / "replays", ignore_errors=True)
+        # evidence written against a patched tree is not evidence: it went to a scratch directory (VERIF_OUT)
+        if "out_dir" in locals():
+            shutil.rmtree(out_dir, ignore_errors=True)
     dst = VERIF / "seeded" / sid
     dst.mkdir(parents=True, exist_ok=True)
     shutil.copy(patch, dst / "patch.diff")
